@@ -43,6 +43,8 @@ var (
 
 type VEVM struct {
 	Faults bool
+	// NoKey: validators (by index) without an account registered for the chain
+	NoKey map[int]bool
 	Chains []string
 }
 
@@ -74,6 +76,9 @@ func (e *VEVM) GetEthAddressByValidator(ctx context.Context, validator sdk.ValAd
 	}
 	for i, v := range vVals {
 		if v.Equals(validator) {
+			if e.NoKey[i] {
+				return nil, false, nil
+			}
 			a, err := types.NewEthAddress(vEthAddrs[i])
 			return a, err == nil, err
 		}
@@ -83,7 +88,7 @@ func (e *VEVM) GetEthAddressByValidator(ctx context.Context, validator sdk.ValAd
 
 func (e *VEVM) GetValidatorAddressByEthAddress(ctx context.Context, ethAddr types.EthAddress, chainReferenceId string) (sdk.ValAddress, bool, error) {
 	for i, a := range vEthAddrs {
-		if ethAddr.GetAddress() == gethcommon.HexToAddress(a) {
+		if ethAddr.GetAddress() == gethcommon.HexToAddress(a) && !e.NoKey[i] {
 			return vVals[i], true, nil
 		}
 	}
